@@ -113,3 +113,9 @@ func VP_C06_ByDir() {
 	zzvp.Assert(ok, "a directory operation selects exactly the tracked paths beneath <dir>/")
 	zzvp.Done()
 }
+
+var vpHarnesses = map[string]func(){
+	"VP_C06_GetEntry": VP_C06_GetEntry,
+	"VP_C06_IsDir":    VP_C06_IsDir,
+	"VP_C06_ByDir":    VP_C06_ByDir,
+}
